@@ -121,6 +121,9 @@ func genVal(t *rapid.T) valCase {
 // specRequiresAccept: every field inside its specification range and the value
 // is not one of the RFU/alias values nobody is required to accept.
 func specRequiresAccept(s *ref.Spec, v ref.Vals) bool {
+	if s.Name == "DutyCycleReq" && v["MaxDCycle"] == 255 {
+		return true // LoRaWAN 1.0 - 1.0.2: the whole octet, 255 = "become silent immediately" (the library serves 1.0.x too)
+	}
 	for _, f := range s.Fields {
 		if !f.Representable(v[f.Name]) {
 			return false
@@ -339,6 +342,38 @@ func streamRoundTrip(c streamCase, prop ref.PropSizes) evid.Outcome {
 	}
 	if d := sameCmds(got, c.Cmds); d != "" {
 		return evid.Fail("stream %x (uplink=%v, %s) decodes differently: %s", enc, c.Uplink, c.Where, d)
+	}
+	// LoRaWAN 1.1: the same sequence as command values in FOpts, through EncryptFOpts on the sender's and DecryptFOpts
+	// on the receiver's side
+	if c.Where == "fopts" && len(c.Cmds) > 0 && prop == nil {
+		key := lorawan.AES128Key{7, 6, 5, 4, 3, 2, 1, 0, 15, 14, 13, 12, 11, 10, 9, 8}
+		sm := &lorawan.MACPayload{FHDR: lorawan.FHDR{DevAddr: lorawan.DevAddr{1, 2, 3, 4}, FCnt: 1, FOpts: gen.LibCmds(c.Uplink, c.Cmds)}}
+		sp := lorawan.PHYPayload{MHDR: lorawan.MHDR{MType: lorawan.MType(mt), Major: lorawan.LoRaWANR1}, MACPayload: sm}
+		if err := sp.EncryptFOpts(key); err != nil {
+			return evid.Fail("EncryptFOpts of a frame whose FOpts hold the %d commands %+v: %v", len(c.Cmds), c.Cmds, err)
+		}
+		air, err := sp.MarshalBinary()
+		if err != nil || len(air) != len(f.Encode()) {
+			return evid.Fail("a frame whose FOpts hold the %d commands %+v (%d bytes) serialises, after EncryptFOpts, to %x (%d bytes, err %v); the frame has %d bytes", len(c.Cmds), c.Cmds, len(enc), air, len(air), err, len(f.Encode()))
+		}
+		var rp lorawan.PHYPayload
+		if err := rp.UnmarshalBinary(air); err != nil {
+			return evid.Fail("the frame %x (FOpts encrypted) does not decode: %v", air, err)
+		}
+		if err := rp.DecryptFOpts(key); err != nil {
+			return evid.Fail("DecryptFOpts of %x: %v", air, err)
+		}
+		var back []ref.Cmd
+		for _, pl := range rp.MACPayload.(*lorawan.MACPayload).FHDR.FOpts {
+			mc, ok := pl.(*lorawan.MACCommand)
+			if !ok {
+				return evid.Fail("DecryptFOpts left a %T in FOpts", pl)
+			}
+			back = append(back, gen.ModelCmd(c.Uplink, mc))
+		}
+		if d := sameCmds(back, c.Cmds); d != "" {
+			return evid.Fail("the commands %+v put into FOpts, encrypted (EncryptFOpts), sent as %x and decrypted (DecryptFOpts) come out differently: %s", c.Cmds, air, d)
+		}
 	}
 	// the decoded frame answers with another command sequence in the same field: the empty one (nil / empty slice),
 	// then the first command alone - each must travel as exactly that sequence
@@ -619,7 +654,7 @@ func TestProp(t *testing.T) {
 		300000, 10000000, genVal, checkVal)
 
 	evid.Rapid(r, t, "streams",
-		"rapid: command sequences per direction built to a drawn byte budget (FOpts <= 15, port 0 <= 242; a quarter exactly at the limit), including payload-less CIDs and up to 3 CIDs unknown in that direction; each command encodes to 1 + registered size (its payload alone to the same bytes); all returned slices are held until every command is encoded, then joined: the concatenation equals the model framing and decodes (DecodeFOptsToMACCommands / DecodeFRMPayloadToMACCommands) to exactly the sequence; the decoded frame's field is then replaced by the empty sequence (nil, empty slice) and by the first command alone and must encode as the model frame with that content. Non-trivial: >= 3 commands.",
+		"rapid: command sequences per direction built to a drawn byte budget (FOpts <= 15, port 0 <= 242; a quarter exactly at the limit), including payload-less CIDs and up to 3 CIDs unknown in that direction; each command encodes to 1 + registered size (its payload alone to the same bytes); all returned slices are held until every command is encoded, then joined: the concatenation equals the model framing and decodes (DecodeFOptsToMACCommands / DecodeFRMPayloadToMACCommands) to exactly the sequence; for FOpts the sequence also travels as command values through EncryptFOpts, the wire and DecryptFOpts (LoRaWAN 1.1); the decoded frame's field is then replaced by the empty sequence (nil, empty slice) and by the first command alone and must encode as the model frame with that content. Non-trivial: >= 3 commands.",
 		50000, 3000000, genStream, checkStream)
 
 	evid.Rapid(r, t, "streams-with-unencodable-command",
